@@ -121,16 +121,13 @@ def cfNames (ds : Views) (lat lon : String) : Option (List String) :=
     some ([lon, lat] ++ bounds)
   | _, _ => none
 
-/-- `ShocSimple.topology`: the first `(j, i)` variable whose `standard_name` is `std`;
-a `(j, i)` variable without `standard_name` met before it raises `KeyError`. -/
-def shocSimpleFind (std : String) : List VarView → Option String
-  | [] => none
-  | v :: vs =>
-    if v.dims == Gen.shocSimpleDims then
-      match v.attr "standard_name" with
-      | none => none
-      | some s => if s == std then some v.name else shocSimpleFind std vs
-    else shocSimpleFind std vs
+/-- `ShocSimple.topology`: the first variable with dimensions exactly `(j, i)` whose
+`standard_name` is `std` (`variable.attrs.get("standard_name") == std`). -/
+def isShocCoordinate (std : String) (v : VarView) : Bool :=
+  v.dims == Gen.shocSimpleDims && v.attr "standard_name" == some std
+
+def shocSimpleFind (std : String) (ds : Views) : Option String :=
+  (ds.find? (isShocCoordinate std)).map (·.name)
 
 /-! ### Arakawa C -/
 
